@@ -1,4 +1,5 @@
 import WebrtcVerif.Base.Wire
+import WebrtcVerif.Drv.C05
 import WebrtcVerif.Drv.C22
 import WebrtcVerif.Drv.C36
 /-!
@@ -10,6 +11,7 @@ open WebrtcVerif
 
 def runLine (toks : List String) : String :=
   match toks with
+  | "C05" :: rest => Drv.C05.run rest
   | "C22" :: rest => Drv.C22.run rest
   | "C36" :: rest => Drv.C36.run rest
   | _ => "bad-op"
@@ -18,6 +20,7 @@ def judgeLine (toks : List String) : String :=
   let op := toks.takeWhile (· ≠ "=>")
   let out := (toks.dropWhile (· ≠ "=>")).drop 1
   match op with
+  | "C05" :: rest => Drv.C05.judge rest out
   | "C22" :: rest => Drv.C22.judge rest out
   | "C36" :: rest => Drv.C36.judge rest out
   | _ => "bad-judge"
